@@ -84,7 +84,7 @@ func ruleLayoutBinary(c *Ctx) {
 		okGuard := ok && g.Init == nil && g.Else == nil
 		if okGuard {
 			env := p.newCanonEnv(fd)
-			okGuard = env.canon(g.Cond) == "(call(builtin.len;P0)!=K(16))"
+			okGuard = env.canon(g.Cond) == "(K(16)!=call(builtin.len;P0))"
 			if okGuard {
 				okGuard = len(g.Body.List) == 1
 				if okGuard {
